@@ -272,13 +272,13 @@ def judge_loopback(ctx, items):
                 spec.append('C13.task-ended-without-a-Shutdown-notification')
             if m is not None:
                 mp = cl.parse(cl.canon(m))
-                mls = [t for t in mp['task'] if t[0] == 'l']
+                mls = [t.split('@')[0] for t in mp['task'] if t[0] == 'l']
                 mcomp = ' '.join(f'c{c[0]}:{c[1]}' for c in sorted(mp['comp']))
                 if mls != ls:
                     # a notification the model (proved legal, with Disabled after every disable and a wait state after
                     # every failed connect / lost connection) makes and the implementation does not, or vice versa
-                    missing = [x[:2] for x in mls if x not in ls]
-                    spec.append('C13.listener-path-differs:' + ('missing-' + missing[0] if missing else 'other'))
+                    k = next((j for j, (a, b) in enumerate(zip(mls, ls)) if a != b), min(len(mls), len(ls)))
+                    spec.append('C13.listener-path-differs:' + (f'{mls[k][:2]}-expected' if k < len(mls) else f'{ls[k][:2]}-unexpected'))
                 if mcomp != comp:
                     other.append('C13.completions-differ-from-the-model')
                 if mp['done'] != fin.startswith('done'):
@@ -305,7 +305,7 @@ def run(ctx):
     if ctx.replay and 'cases' in ctx.replay:
         cases = [cl.case_from_json(j) for j in ctx.replay['cases']]
     else:
-        cases = gen_scripts(ctx.rng, 2000 if ctx.quick() else 20000)
+        cases = gen_scripts(ctx.rng, 3000 if ctx.quick() else 20000)
     impl, model = cl.run_both(ctx, cases)
     n_mis, n_spec = cl.judge(ctx, 'C13', cases, impl, model)
     ctx.oblige('correspondence:client-task-scripts', n_mis == 0 and n_spec == 0, f'{n_mis} model / {n_spec} spec mismatches in {len(cases)} scripts')
@@ -315,7 +315,7 @@ def run(ctx):
     for c, i in zip(cases, impl):
         p = cl.parse(i)
         if p:
-            traces.append((c, [t for t in p['task'] if t[0] == 'l']))
+            traces.append((c, [t.split('@')[0] for t in p['task'] if t[0] == 'l']))
     distinct = sorted(set(tuple(t) for _, t in traces))
     res = ctx.coq_eval(['Base.Show', 'Spec.Lifecycle'], 'fun l : list cstate => show_bool (legal l && shutdown_last l)',
                        ['[' + '; '.join(lstate_coq(x) for x in t) + ']' for t in distinct], case_type='list cstate', per_shard=400)
